@@ -364,3 +364,106 @@ def rule_reg_after_init(db: ProgramDB) -> List[Instance]:
                     "(invalid arguments) the half-built object stays in the registry and domain-less variables range over it"
                     if in_new else "registration does not happen in __new__"))
     return out
+
+
+# ---------------------------------------------------------------------------------- REG-LIVE
+def rule_reg_live(db: ProgramDB) -> List[Instance]:
+    """'The instances constructed so far' is what the registry holds when the variable is EVALUATED.
+      (a) nothing on the declaration path reads the registry (which per-class stores exist is a fact about the moment: a
+          subclass first constructed after the declaration has no store yet);
+      (b) where an evaluation takes the domain from the registry, it marks the domain as such, and the per-evaluation reset of
+          the variable drops a domain so marked - otherwise the first evaluation's snapshot is what every later evaluation of
+          the same query ranges over, also after the registry was cleared;
+      (c) that reset reaches a variable that is only selected (it is not below the descriptor in the graph)."""
+    from .lazy import CONSTRUCTION_FUNCS
+    from .history import reset_chain_assigns
+    out = []
+    # (a)
+    n_decl = 0
+    for q in CONSTRUCTION_FUNCS:
+        fn = db.fn(q, required=False)
+        if fn is None or fn.module not in ("predicate", "entity"):
+            continue
+        n_decl += 1
+        reads = [x for x in own_nodes(fn.node) if _is_registry_expr(db, fn, x) and isinstance(x.ctx, ast.Load)]
+        # a registry read is harmless on the concrete arm (hybrid_new registers) - only the functions of the symbolic arm count
+        if fn.name in ("hybrid_new",):
+            continue
+        out.append(inst("REG-LIVE", VIOLATION if reads else HOLDS, fn, f"{fn.short}[declaration does not read the registry]",
+                        f"`{unparse(db.parent(reads[0]) if reads else fn.node)[:80]}` reads the registry while the variable is being declared: the per-class stores that exist "
+                        f"at that moment are what it will range over, and instances of a subclass first constructed before the evaluation are missed "
+                        f"(declared on an empty registry the same variable sees them)" if reads else "the registry is not consulted at declaration",
+                        line=reads[0].lineno if reads else fn.lineno))
+    if n_decl < 3:
+        raise AnalysisError("declaration functions of the predicate / entity modules not found")
+    # (b)
+    var = db.cls("Variable")
+    takers = []
+    for m in var.methods.values():
+        if m.cls is not var:
+            continue
+        for a in own_nodes(m.node):
+            if isinstance(a, ast.Assign) and any(isinstance(t, ast.Attribute) and t.attr == "_domain_source_" for t in a.targets) and \
+                    any(isinstance(x, ast.Attribute) and x.attr in ("_cache_values_", "_cache_") for x in ast.walk(a.value)):
+                takers.append((m, a))
+    if not takers:
+        raise AnalysisError("Variable: the place where the domain is taken from the registry was not found")
+    dropped = reset_chain_assigns(db, var)
+    ok_b = {"_domain_", "_domain_source_"} <= set(dropped) or "_domain_" in dropped
+    for m, a in takers:
+        out.append(inst("REG-LIVE", HOLDS if ok_b else VIOLATION, m, f"{m.short}[registry-backed domain is per evaluation]",
+                        "the per-evaluation reset of the variable drops a domain that was taken from the registry" if ok_b else
+                        f"`{unparse(a)[:60]}` memoises the registry as the variable's domain and the per-evaluation reset keeps it: the same query evaluated again "
+                        f"after more instances were constructed (or the registry was cleared) returns the instances of its first evaluation", line=a.lineno))
+    # (c)
+    qod = db.cls("QueryObjectDescriptor")
+    r = qod.methods.get("_reset_only_my_cache_")
+    reaches = r is not None and any(isinstance(l, ast.For) and "selected_variables" in unparse(l.iter) and any(
+        isinstance(c, ast.Call) and call_attr(c) in ("_reset_only_my_cache_", "_reset_cache_") for c in ast.walk(l)) for l in own_nodes(r.node))
+    linked = False
+    if not reaches:
+        # or the selected variables are linked below the descriptor
+        for m in qod.methods.values():
+            for c in own_calls(m):
+                if call_attr(c) in ("_update_children_",) and any("selected_variables" in unparse(a) for a in c.args):
+                    linked = True
+    ok_c = reaches or linked
+    out.append(inst("REG-LIVE", HOLDS if ok_c else VIOLATION, qod, "QueryObjectDescriptor[the reset reaches selected variables]",
+                    "the descriptor's reset visits its selected variables" if ok_c else
+                    "a variable that is only selected (an(entity(let(Body))), no condition) is not below the descriptor in the graph and the descriptor's reset "
+                    "does not visit it: its registry-backed domain is never dropped"))
+    return out
+
+
+# ---------------------------------------------------------------------------------- REG-NO-PROBE
+def rule_reg_no_probe(db: ProgramDB) -> List[Instance]:
+    """Registration happens in __new__, before the class's __init__ has run: nothing may look attributes up on the new object
+    there.  HashedValue(x) without an identifier probes x with hasattr(x, '_id_'), which runs a user-defined __getattr__ on
+    the uninitialised object (a delegating __getattr__ recurses forever)."""
+    out = []
+    w = db.fn("predicate:instantiate_class_and_update_cache")
+    hv = db.cls("HashedValue")
+    pi = hv.methods.get("__post_init__")
+    probes = pi is not None and any(isinstance(c, ast.Call) and dotted(c.func) in ("hasattr", "getattr") for c in own_nodes(pi.node))
+    inst_names = {t.id for a in own_nodes(w.node) if isinstance(a, ast.Assign) and isinstance(a.value, ast.Call) and "new" in unparse(a.value.func)
+                  for t in a.targets if isinstance(t, ast.Name)}
+    if not inst_names:
+        raise AnalysisError("instantiate_class_and_update_cache: allocation of the instance not found")
+    bad = []
+    n = 0
+    for c in own_calls(w):
+        t = resolve_call_target(db, w, c)
+        if isinstance(t, ClassInfo) and t is hv and c.args and isinstance(c.args[0], ast.Name) and c.args[0].id in inst_names:
+            n += 1
+            amap = bind_args(hv.init_params(), c)
+            if probes and "id_" not in amap:
+                bad.append(c)
+        if dotted(c.func) in ("hasattr",) and c.args and isinstance(c.args[0], ast.Name) and c.args[0].id in inst_names:
+            bad.append(c)
+    if n == 0:
+        raise AnalysisError("instantiate_class_and_update_cache: the wrapped instance handed to the registry was not found")
+    out.append(inst("REG-NO-PROBE", VIOLATION if bad else HOLDS, w, "instantiate_class_and_update_cache[no attribute lookup on the uninitialised instance]",
+                    f"`{unparse(bad[0])}` looks an attribute up on the instance before its __init__ has run (HashedValue without an identifier probes hasattr(x, '_id_')): "
+                    f"a @symbol class with a hand-written __init__ and a delegating __getattr__ raises RecursionError on every concrete construction" if bad else
+                    "the instance is wrapped with its identifier given", line=bad[0].lineno if bad else w.lineno))
+    return out
